@@ -15,6 +15,10 @@
 //!   vertices in generic position; reply `err InconsistentOrientation in-boundary-inconsistency`
 //!   iff that is the result, `ok` for every other outcome (the first routine after reading the
 //!   file is `detect_orientation_issue`; everything later is answered `ok`).
+//! * `gcross <cx> <cy> <ox> <oy> <nx> x1 y1 x2 y2` -> the vertices of the session map (normally the result of
+//!   `grisubal none …`) that lie strictly inside the segment, in the order of the segment, as exact rationals
+//!   (`ok n | x y | …`); the model answers with the crossings its `crossingsOf` computes.  `gchain …` (implementation
+//!   only) -> `ok true` iff consecutive ones are joined by an edge of the map.
 //! * `ancinit` -> rebuilds the 2-D session map with the three anchor storages (public API only:
 //!   builder + `set_betas` + `remove_free_dart` + `force_write_*`); storages 6, 7, 8 of `snap`.
 //! * `wanchor v|e|f <id> <N|C|S|B><k>` -> `force_write_attribute`; `anchors` -> anchors of every
@@ -362,6 +366,46 @@ pub fn step(sess: &mut Sess, toks: &[&str]) -> Option<String> {
                 }
                 _ => "ok".into(),
             })
+        }
+        "gcross" | "gchain" => {
+            // gcross|gchain <cx> <cy> <ox> <oy> <nx> x1 y1 x2 y2: the grid arguments are for the model (which has no
+            // map); here the answer is read off the map the real kernel returned
+            let Sess::D2(s) = sess else { return Some("bad-op".into()) };
+            if toks.len() != 10 {
+                return Some("bad-op".into());
+            }
+            let mut v = [0.0f64; 4];
+            for k in 0..4 {
+                let Some(x) = parse_rat(toks[6 + k]) else { return Some("bad-op".into()) };
+                v[k] = x;
+            }
+            let m = &s.map;
+            let (ax, ay, bx, by) = (v[0], v[1], v[2], v[3]);
+            let (dx, dy) = (bx - ax, by - ay);
+            let l2 = dx * dx + dy * dy;
+            let len = l2.sqrt();
+            let mut on: Vec<(f64, u32, f64, f64)> = vec![];
+            for vid in m.iter_vertices() {
+                let Some(p) = m.force_read_vertex(vid) else { continue };
+                let (px, py) = (p.x() - ax, p.y() - ay);
+                let sp = (px * dx + py * dy) / l2;
+                let dist = (px * dy - py * dx).abs() / len;
+                if dist <= 1e-9 * len.max(1.0) && sp > 1e-12 && sp < 1.0 - 1e-12 {
+                    on.push((sp, vid, p.x(), p.y()));
+                }
+            }
+            on.sort_by(|a, b| a.0.partial_cmp(&b.0).unwrap());
+            if toks[0] == "gcross" {
+                let pts: Vec<String> = on.iter().map(|(_, _, x, y)| format!("{} {}", crate::fmt::rat(*x), crate::fmt::rat(*y))).collect();
+                Some(if pts.is_empty() { "ok 0".into() } else { format!("ok {} | {}", pts.len(), pts.join(" | ")) })
+            } else {
+                // consecutive vertices of the segment are joined by an edge of the map running along the segment
+                let chained = on.windows(2).all(|w| {
+                    m.orbit(honeycomb_core::cmap::OrbitPolicy::Vertex, w[0].1)
+                        .any(|d| m.beta::<1>(d) != 0 && m.vertex_id(m.beta::<1>(d)) == w[1].1)
+                });
+                Some(format!("ok {chained}"))
+            }
         }
         "ancinit" => {
             let Sess::D2(s) = sess else { return Some("bad-op".into()) };
